@@ -149,7 +149,19 @@ func (e *Enc) appendOwnership(fr *Frame, common *ssa.CallCommon, s Val, newLen T
 		"(< (sarr " + s.T + ") alloc@entry)",
 		"(> " + newLen + " (scap " + s.T + "))",
 	}
-	if ld, ok := op.(*ssa.UnOp); ok && ld.Op == token.MUL && len(places) > 0 {
+	// a reslice of the place's slice (s.buf[:0]) shares the place's backing array
+	base := op
+	for {
+		sl, ok := base.(*ssa.Slice)
+		if !ok {
+			break
+		}
+		if _, isSlice := sl.X.Type().Underlying().(*types.Slice); !isSlice {
+			break
+		}
+		base = sl.X
+	}
+	if ld, ok := base.(*ssa.UnOp); ok && ld.Op == token.MUL && len(places) > 0 {
 		from := e.placeOf(e.val(fr, ld.X), ld.Type())
 		ctx := e.frameCtx(root, st, root.curBlock, root.curIdx, nil)
 		ctx.what = "appends of " + contractName(e.top)
